@@ -1,9 +1,16 @@
-"""PROVED-class obligations of C12: see props/resolves.py."""
+"""PROVED-class obligations of C12: see props/constructions2.py and props/resolves.py."""
 import z3
 
+from props import constructions2 as C2
 from props import resolves
+from vlib.pyvc import interp as I
 
 
 def proved(run):
     run.trust("pyvc symbolic interpreter over the real AST", f"z3 {z3.get_version_string()}")
     resolves.c12_one_resolves(run)
+    for f in (C2.c12,):
+        try:
+            f(run)
+        except (I.OutOfSubset, KeyError) as e:
+            run.obligation("C12/" + f.__name__, "out-of-subset", detail=str(e))
